@@ -28,6 +28,7 @@ def run(ctx, sess):
     ctx.rule('C05.2', 'tag table: every track tag equals FLAG | type << 3 | chunk, the pack helper produces it and the parse helpers invert it (finite-domain evaluation over all 4 x 5 pairs)')
     ctx.rule('C05.3', 'header stamping: in the header writer the CRC store follows every other store to the header and dominates the write of the header')
     ctx.rule('C05.4', 'padding: writer and reader compute the same on-disk payload size for every byte residue, header + payload + pad + crc is a multiple of 8, the pad is zero-filled, the payload CRC is little-endian at the end')
+    ctx.rule('C05.11', 'FSR summary chunks carry what their header announces: the payload length handed to the summary writer is header + entry_count x the entry size that was stored in entry_size_bits (4 x f32 or 4 x f64, chosen by data type), not the size of a fixed struct type')
     ctx.rule('C05.5', 'previous-length bookkeeping: every successful append updates last_payload_length when at the end of the file (also for an empty payload)')
     ctx.rule('C05.6', 'adjacency: after an INDEX chunk is written, the next chunk written on every path is the SUMMARY of the same level')
     ctx.rule('C05.7', 'a chunk is linked (header cached for rewrite) only after it was written and stamped')
@@ -40,6 +41,7 @@ def run(ctx, sess):
     r4(ctx, P)
     r5(ctx, P)
     r5b(ctx, P)
+    r11(ctx, P)
     r6(ctx, P)
     r7(ctx, P)
     r8(ctx, P)
@@ -630,3 +632,35 @@ def r10(ctx, P):
                 ctx.ob('C05.10', ok, fn.name, 'item_prev of %s comes from its list head' % c.obj, ev.where(),
                        'item_prev = %s, linked into %s' % (rp, [str(h) for h in heads]))
     ctx.floor('linked chunk constructors', n, 8)
+
+
+def r11(ctx, P):
+    fn = P.fn('wr_summary', 'src/wr_fsr.c')
+    ctx.saw(fn, 1)
+    # the function that decides the entry width: the one whose result is stored into summary header.entry_size_bits
+    width_fns = set()
+    for g in P.fns_in('src/wr_fsr.c'):
+        for ev in g.stores():
+            lhs, rhs, o = ev.store_parts()
+            if strip_casts(lhs).get('field') == 'entry_size_bits' and rhs is not None and 'summary' in str(g.path(strip_casts(lhs)) or ''):
+                for nd in walk(rhs):
+                    if nd.get('op') == 'call' and nd.get('callee') in P.functions:
+                        width_fns.add(nd['callee'])
+                    if nd.get('op') == 'ref' and nd.get('rk') == 'local':
+                        d_ = df.resolve_local(g, nd, ev.block, ev.idx)
+                        for m in walk(d_ or {}):
+                            if m.get('op') == 'call' and m.get('callee') in P.functions:
+                                width_fns.add(m['callee'])
+    if not width_fns:
+        raise AnalysisBroken('no function found that decides the summary entry width')
+    n = 0
+    for c in fn.calls('jls_core_wr_summary'):
+        n += 1
+        ln = c.args[-1]
+        dep_w = df.derives(fn, ln, lambda nd: (nd.get('op') == 'call' and nd.get('callee') in width_fns) or
+                           (nd.get('op') == 'member' and nd.get('field') == 'entry_size_bits'), c.block, c.idx, must=True)
+        dep_n = df.derives(fn, ln, lambda nd: nd.get('op') == 'member' and nd.get('field') == 'entry_count', c.block, c.idx, must=True)
+        ctx.ob('C05.11', dep_w and dep_n, fn.name, 'summary payload length', c.where(),
+               'computed from entry_count and the entry width (%s)' % ', '.join(sorted(width_fns)) if (dep_w and dep_n) else
+               'the payload length does not depend on the entry width chosen for this data type: summaries of types with 4 x f64 entries are written half and the reader runs past the payload')
+    ctx.floor('FSR summary writes', n, 1)
